@@ -74,15 +74,32 @@ def cases(draw):
         'passive': draw(st.sampled_from([False, False, True])),
         'hold': draw(st.sampled_from([9, 9, 30, 0])),
         'connect_ok': draw(st.sampled_from([True, True, True, False])),
+        # graceful restart offered by both sides (RFC 4724): a second connection from the peer may then be a restart
+        'gr': draw(st.sampled_from([False, False, True])),
         'ops': draw(st.sampled_from([[], [], [['handshake']], [['handshake']], [['handshake'], ['wait', 0.3]], [['in'], ['handshake']]])) + draw(st.lists(op(), min_size=1, max_size=24)),
     }
 
 
 def check(case: dict) -> dict:
+    from vlib.refwire import build
+
+    sc.EXTRA_CAPS[:] = [build.cap_gr(0, 120, [(1, 1, 0x80), (2, 1, 0x80)])] if case.get('gr') else []
+    try:
+        return _check(case)
+    finally:
+        sc.EXTRA_CAPS[:] = []
+
+
+def _check(case: dict) -> dict:
     out: dict = {}
 
     async def main(loop):
-        text = sc.config(passive=case['passive'], hold=case['hold'], routes=['route 30.0.0.0/24 next-hop 1.2.3.4', 'route 30.0.1.0/24 next-hop 1.2.3.4 med 5'])
+        text = sc.config(
+            passive=case['passive'],
+            hold=case['hold'],
+            routes=['route 30.0.0.0/24 next-hop 1.2.3.4', 'route 30.0.1.0/24 next-hop 1.2.3.4 med 5'],
+            capability={'graceful-restart': 120} if case.get('gr') else None,
+        )
         env = {'bgp.openwait': 8}
         if case['passive']:
             env['bgp.passive'] = True
@@ -213,6 +230,8 @@ def check(case: dict) -> dict:
         classes.append('several-transports')
     if case['passive']:
         classes.append('passive')
+    if case.get('gr'):
+        classes.append('graceful-restart-negotiable')
     if any(r['kind'] == 'incoming' for r in out['remotes']):
         classes.append('incoming-connection')
     if any(r.get('denied') for r in out['remotes']):
@@ -222,7 +241,7 @@ def check(case: dict) -> dict:
     return {'nontrivial': nontrivial, 'classes': classes}
 
 
-ENGINES = [Engine('schedules', cases, check, quick=300, thorough=12000, batch=100, thorough_s=1200.0)]
+ENGINES = [Engine('schedules', cases, check, quick=700, thorough=12000, batch=100, thorough_s=1200.0)]
 
 
 # ---------------------------------------------------------------------------- dynamic peers: a neighbor defined as an address range
